@@ -40,6 +40,9 @@ TRUSTED_BASE = [
     'uses it, not from firmware source; it exists twice (Gallina, fakes/c12_target.py) and both are compared in every case',
 ]
 ASSUMPTIONS = [
+    'a reference-keeping link takes the queued packet at the latest when the next packet is offered or the client starts '
+    'to receive (one-slot out-queue, as cflib.crtp.radiodriver); CRTPPacket objects are modelled as heap cells whose '
+    'content is what pk.header/pk.data return when read',
     'between two flashes on one Bootloader object the code keeps only the link (downlink queue) and Cloader.error_code / '
     'targets; an exception raised by the link inside send_packet propagates uncaught (modelled as: the frames before it '
     'went out); the target geometry cache is not changed between the flashes of a history',
@@ -71,7 +74,7 @@ ASSUMPTIONS = [
     'the UI configuration is an input: progress_cb installed or not, terminate_flashing_cb absent or answering a given '
     'sequence; error_cb is never read by cflib/bootloader; the callbacks themselves do not raise',
 ]
-PROVED = ('Thirty-three theorems (C12/Property.v), all closed under the global context. Single image: exact placement, '
+PROVED = ('Thirty-six theorems (C12/Property.v), all closed under the global context. Single image: exact placement, '
           'nothing outside its pages, no out-of-range command, other target untouched, refusal before any write, negative '
           'override raises before any flash-write, frame sizes, per-page loads exactly once in order, bounded retry then abort. '
           'Geometry: info packet decoded exactly, only a received matching packet is reported, at most six requests. nRF51 '
@@ -88,7 +91,9 @@ PROVED = ('Thirty-three theorems (C12/Property.v), all closed under the global c
           'or the run is terminated on a prefix of them when the terminate callback says so; whole plans are identical with '
           'progress_cb; the raise-only-without-progress_cb variant is refuted. Histories on one object: a flash does not depend '
           'on the downlink queue it finds, so its writes are a function of its own request and the script position however '
-          'the previous flash ended; a buffer counter surviving an abort is refuted.')
+          'the previous flash ended; a buffer counter surviving an abort is refuted. Reference-keeping links: if no packet '
+          'cell is written after hand-over, deferred serialisation equals immediate serialisation; upload_buffer hands over '
+          'a new cell per chunk, so its deferred stream is the model\'s frame list; one reused cell is refuted.')
 NOT_PROVED = ('zip/manifest parsing (incl. the legacy manifest-v1 rule that adds the distro s110 binary), flash_full / '
               'start_bootloader / _get_boot_delay (need a firmware-side Crazyflie), deck flashing, reset/reconnect (played by '
               'the fake) are not modelled; final content when two selected images overlap on one target is not stated. Loss of buffer-load packets, a target whose real geometry differs from the reported one, and replies '
@@ -96,7 +101,7 @@ NOT_PROVED = ('zip/manifest parsing (incl. the legacy manifest-v1 rule that adds
               'the flush of the next) are outside the model; bytes of the last flash page beyond the image end take '
               'whatever the buffer held (inside the occupied range, allowed by the statement).')
 
-HEADER = ('From CF Require Import Common.Bytes C12.Model C12.Session C12.Plan C12.Callbacks C12.History.\nOpen Scope Z_scope.\n'
+HEADER = ('From CF Require Import Common.Bytes C12.Model C12.Session C12.Plan C12.Callbacks C12.History C12.Alias.\nOpen Scope Z_scope.\n'
           'Fixpoint zr (a : Z) (n : nat) : list Z := match n with O => [] | S k => a :: zr (a + 1) k end.\n'
           'Definition mem (n salt : Z) : list Z := map (fun a => ((a * 7 + salt) * 13 + a / 8) mod 251) (zr 0 (Z.to_nat n)).\n'
           'Definition dg1 (p b : Z) (l : list Z) : Z := fold_left (fun h v => (h * b + v + 1) mod p) l 7.\n'
@@ -195,6 +200,7 @@ def run_impl(case, policy=None):
     tg = build_targets(case)
     link = ft.Link(tg, case.get('script', []), case.get('queue', []), CRTPPacket)
     link.policy = policy
+    link.deferred = bool(case.get('deferred'))
     bl = Bootloader()
     bl._cload.link = link
     for t in case['targets']:
@@ -230,6 +236,10 @@ def run_impl(case, policy=None):
                 code = 6
             else:
                 code, detail = 99, repr(e)
+    try:
+        link.drain()             # the radio thread sends what is still queued
+    except ft.HarnessAbort as e:
+        code, detail = 98, repr(e)
     return code, detail, link, tg
 
 
@@ -271,6 +281,7 @@ def impl_obs(case):
     for (h, d) in link.q:
         out += [h, len(d)] + list(d)
     out += [len(link.log)] + list(link.log)
+    out += [1 if link.distinct_load_objects() else 0]
     return out, code, detail, link, tg
 
 
@@ -303,7 +314,8 @@ def model_term(case):
     return ('let \'(o, q, s, tr, lg) := internal_flash_cb false %s %d %d %d %d %d %s %s [%s] [%s] in '
             '[ocb_code o] ++ trace_obs tr ++ '
             'concat (map (fun T => let T1 := deliver T tr in t_buf T1 ++ t_flash T1 ++ [if t_oob T1 then 1 else 0]) [%s]) '
-            '++ pkts_obs q ++ [zlen (map msg_code lg)] ++ map msg_code lg'
+            '++ pkts_obs q ++ [zlen (map msg_code lg)] ++ map msg_code lg '
+            '++ [if cells_distinct (ub_ops true (map fst tr)) then 1 else 0]'
             % (cfg, case['addr'], me['ps'], me['bp'], me['fp'], me['sp'], ov, img,
                '; '.join(_pkt(p) for p in case.get('queue', [])),
                '; '.join(_att(a) for a in case.get('script', [])), '; '.join(tgs)))
@@ -461,6 +473,8 @@ def gen_case(rng, big=False):
     if rng.random() < 0.25:
         queue = [rng.choice([ack(addr), ack(addr, 0, 3), rand_pkt(rng, addr)]) for _ in range(rng.randrange(1, 4))]
     c = {'targets': targets, 'addr': addr, 'image': image, 'override': override, 'script': script, 'queue': queue}
+    if rng.random() < 0.5:
+        c['deferred'] = True           # reference-keeping link (radio driver style)
     r = rng.random()
     if r < 0.55:
         c['cb'] = {'progress': rng.random() < 0.8,
@@ -1249,6 +1263,7 @@ def run_history(case, faults=None):
         bl.terminate_flashing_cb = None
         log = install_callbacks(bl, fl.get('cb'))
         link.nsend = 0
+        link.deferred = bool(case.get('deferred'))
         link.raise_at = fl.get('link_exc_at')
         pol = None
         if faults is not None:
@@ -1282,6 +1297,10 @@ def run_history(case, faults=None):
                     code = 6
                 else:
                     code, detail = 99, repr(e)
+        try:
+            link.drain()
+        except ft.HarnessAbort as e:
+            code, detail = 98, repr(e)
         after = [(bytes(t.buf), bytes(t.flash), t.oob) for t in tg]
         recs.append({'code': code, 'detail': detail, 'frames': link.sent[n0:], 'before': before, 'after': after,
                      'log': log, 'pol': pol})
@@ -1353,6 +1372,8 @@ def gen_history_case(rng, for_oracle=False):
             fl['link_exc_at'] = rng.randrange(1, 2 * npg + 4)
         flashes.append(fl)
     c = {'targets': targets, 'flashes': flashes, 'queue': [], 'script': []}
+    if rng.random() < 0.5:
+        c['deferred'] = True
     if not for_oracle and rng.random() < 0.7:
         ncalls = sum((len(fl['image']) // (geo[fl['addr']]['ps'] * geo[fl['addr']]['bp'])) + 1 for fl in flashes)
         c['script'] = rand_script(rng, flashes[0]['addr'], ncalls)
@@ -2137,6 +2158,9 @@ def callback_variants(c, k):
     """The same case under the UI configurations: as generated, with a progress callback, and (now and then) with a
     terminate callback that never / at some page asks to stop.  Every clause must hold under each of them."""
     out = [c]
+    if not c.get('deferred'):
+        # the same case through the reference-keeping link: what the radio serialises later must still be the image
+        out.append(dict(c, deferred=True))
     if not c.get('cb'):
         out.append(dict(c, cb={'progress': True, 'term': None}))
         if k % 5 == 0:
@@ -2150,7 +2174,7 @@ def oracle(ctx, deep=False):
     fails = []
     n = 0
     rng = __import__('random').Random(ctx.seed * 7919 + 12)
-    nrand = ctx.scale(400, 4000) * (4 if deep else 1)
+    nrand = ctx.scale(300, 4000) * (4 if deep else 1)
     pool = grid_cases(ctx, deep or ctx.thorough) + [gen_case(rng) for _ in range(nrand)]
     pool += [gen_case(rng, big=True) for _ in range(ctx.scale(4, 40))]
     rng.shuffle(pool)       # the time budget may cut the run short: keep every prefix diverse
